@@ -196,10 +196,14 @@ type c12Op struct {
 	hs   []int       // rm: pool indices, -1 = a hash that is not cached
 	subs [][2]string // rmm
 	mid  *c12Op      // hs / ari: operation performed at the storage yield point inside the real call
+	flip bool        // add: the same certificate (same hash) offered with the other managed flag
 }
 
 func (op c12Op) String() string {
 	s := fmt.Sprintf("%s(%d,%d,%v,%v,%v)", op.kind, op.i, op.j, op.tags, op.hs, op.subs)
+	if op.flip {
+		s += "~"
+	}
 	if op.mid != nil {
 		s += "{" + op.mid.String() + "}"
 	}
@@ -311,7 +315,13 @@ func (r *c12Run) exec(op c12Op, k int) {
 		pc := r.p.certs[op.i]
 		before := r.keys()
 		var c Certificate
-		if pc.cert.managed {
+		if op.flip {
+			// a certificate first loaded as unmanaged and later put under management (or the other
+			// way round): same bytes, same hash, the other flag — it must still be one cache entry
+			c = r.copyOf(op.i, op.tags)
+			c.managed = !c.managed
+			r.cache.cacheCertificate(c)
+		} else if pc.cert.managed {
 			c = r.copyOf(op.i, op.tags)
 			r.cache.cacheCertificate(c) // what CacheManagedCertificate does with the loaded bundle
 		} else {
@@ -466,6 +476,9 @@ func c12Alphabet(p *c12Pool, pool []int, full bool) []c12Op {
 	managed := func(i int) bool { return p.certs[i].cert.managed }
 	for _, i := range pool {
 		a = append(a, c12Op{kind: "add", i: i})
+		if i == pool[0] || (full && i == pool[len(pool)-1]) {
+			a = append(a, c12Op{kind: "add", i: i, tags: []string{"t5"}, flip: true})
+		}
 		if full || i == pool[0] {
 			a = append(a, c12Op{kind: "add", i: i, tags: []string{"t2", "t1"}})
 		}
@@ -551,7 +564,7 @@ func c12RandomOp(rng *mrand.Rand, p *c12Pool, allowMid bool) c12Op {
 	tagsets := [][]string{nil, nil, {"t1"}, {"t2", "t1"}, {"t3"}, {"t1", "t1", "t4"}}
 	switch x := rng.Intn(20); {
 	case x < 7:
-		return c12Op{kind: "add", i: rng.Intn(n), tags: tagsets[rng.Intn(len(tagsets))]}
+		return c12Op{kind: "add", i: rng.Intn(n), tags: tagsets[rng.Intn(len(tagsets))], flip: rng.Intn(6) == 0}
 	case x < 9:
 		var hs []int
 		for k := 1 + rng.Intn(3); k > 0; k-- {
